@@ -50,8 +50,8 @@ CLAIMS = {
   note="trusted: go/ssa front end, SMT solvers, the assumed contract of Stmt. Not covered: transparency (same results with and without the debugger: two executions), the command table, the initial values of the package variables DebugOpStep / DebugOpContinue, explicit breakpoints, Interp.debug",
   ref="DESIGN.md section 0.1, section 5 C19"),
  "C22": dict(
-  text="partial: lemma functions (Go code under the build tag, calling the real methods) with contracts, for each of the 53 wrapper types: unwrapping a wrapped node returns the node (ToNode(ToAst(n)) == n for every node type, by case split over the wrapper types); the empty copy made by New is a fresh node of the same type with the same token, string, boolean and channel-direction attributes and the same 'if any' positions (alias '=', call '...', declaration '(', 'func'); Size is the documented constant and Get can be called for exactly the indexes 0..Size-1 (it fails for every other index) - for all nodes, not a corpus",
-  note="trusted: go/ssa front end, SMT solvers, closed world (every Ast value is one of the compiled wrapper types, generated interpreter proxies excepted), children of a node are nodes of the wrapped types and no typed nil pointers. Not covered: Set / Append and hence the round trip as a whole, what Get returns, list-like wrappers beyond New, Package (TODO in the code), positions / resolution information / comments",
+  text="partial: lemma functions (Go code under the build tag, calling the real methods) with contracts, for each of the 53 wrapper types: unwrapping a wrapped node returns the node (ToNode(ToAst(n)) == n for every node type, by case split over the wrapper types); the empty copy made by New is a fresh node of the same type with the same token, string, boolean and channel-direction attributes and the same 'if any' positions (alias '=', call '...', declaration '(', 'func'); Size is the documented constant and Get can be called for exactly the indexes 0..Size-1 (it fails for every other index); slot by slot, the child read with Get(i) and stored with Set(i) into an empty copy is the child (same node, same list), for each of the 79 child slots of the 46 fixed-size wrappers - for all nodes, not a corpus",
+  note="trusted: go/ssa front end, SMT solvers, closed world (every Ast value is one of the compiled wrapper types, generated interpreter proxies excepted), children of a node are nodes of the wrapped types and no typed nil pointers. BlockStmtToExpr changes nothing. Not covered: the round trip as one statement for nodes with several children (proved per slot), children of the wrong kind (Set converts them), Go 1.18 type parameter lists, list-like wrappers beyond New, Append / Slice, Package (TODO in the code), positions / resolution information / comments",
   ref="DESIGN.md section 0.1, section 5 C22"),
  "C26": dict(
   text="partial: the character-level state machine of base.ReadMultiline, for every input and every byte: the reader's mode after the byte is the lexical state Go's grammar assigns (code, after '/', line comment, general comment, general comment after '*', string / raw string / rune literal, after a backslash inside one; '#!' opens a line comment) and the bracket depth counts exactly the brackets read in code - stated as a transition relation of one loop iteration (loop step clauses) and proved for all iterations; so the mode 'code' and depth 0, in which alone a chunk is cut, mean 'not inside a string, raw string, rune, comment or unbalanced bracket'",
